@@ -29,6 +29,10 @@ VARIANTS = {
 # program name -> harness sources
 PROGRAMS = {
     'hx': ['hx_main.c', 'hx_core.c', 'hx_util.c', 'hx_alloc.c', 'hx_seg.c', 'hx_mutate.c'],
+    'en_c13': ['en_c13.c', 'hx_util.c', 'hx_alloc.c', 'hx_stub.c'],
+    'en_c12': ['en_c12.c', 'hx_util.c', 'hx_alloc.c', 'hx_stub.c'],
+    'en_c15': ['en_c15.c', 'hx_util.c', 'hx_alloc.c', 'hx_stub.c'],
+    'en_c17': ['en_c17.c', 'hx_util.c', 'hx_alloc.c', 'hx_stub.c'],
 }
 EXTRA_PROGRAMS = {}   # filled by other modules: name -> (sources, extra cflags, extra libs)
 
